@@ -75,6 +75,8 @@ def _snapshot_writes(before, after, ex=None):
         b = before.objs.get(oid)
         if b is None:
             continue
+        if f.get('CLS') is not None and 'TXT' in f:
+            continue      # token records: field writes are tracked by the field taint (pyvc.heap), not per object
         for k, v in f.items():
             if k not in b or b[k] is not v:
                 w.add(('fld', (oid, k)))
@@ -102,6 +104,9 @@ def havoc(ex, st, hset, tag):
         if kind == 'var':
             if n in st.env and st.env[n] is not UNBOUND:
                 nv = fresh_like(ex, st.env[n], n)
+                if nv is None and isinstance(st.env[n], LRef) and getattr(ex, 'havoc_list_var', None):
+                    st.env[n] = ex.havoc_list_var(st, n)
+                    continue
                 if nv is None:
                     if isinstance(st.env[n], (Rec, LRef, Func, Opaque)) or not isinstance(st.env[n], Sym):
                         # reference re-bound in the loop: value unknown afterwards
@@ -171,16 +176,28 @@ def run_cut_loop(ex, stmt, st, key, lc, guard_fn, bind_fn, advance_fn, label):
         head = st.fork()
         havoc(ex, head, hset, key)
         bnd = (lc or {}).get('bind')
+        heads = [head]
         if bnd:
-            bnd(ex, head)
-        for inv in invs:
-            head.assume(_z(ex.spec(inv, head)))
-        for lem in (lc or {}).get('lemmas', []):
-            head.assume(_z(ex.spec(lem, head)))
+            heads = bnd(ex, head) or [head]
         results = []
         more = set()
-        g = guard_fn(head)
-        for s_g, b in ex.decide(head, g):
+        taint0 = head.ghost.get('__taint__', frozenset())
+        for head in heads:
+          for inv in invs:
+            ai = getattr(ex, 'assume_inv', None)
+            if ai and ai(inv, head):
+                continue
+            head.assume(_z(ex.spec(inv, head)))
+          for lem in (lc or {}).get('lemmas', []):
+            head.assume(_z(ex.spec(lem, head)))
+          g = guard_fn(head)
+          branches = []
+          if isinstance(g, list):
+              for s_h, z_h in g:
+                  branches.extend(ex.decide(s_h, z_h))
+          else:
+              branches = ex.decide(head, g)
+          for s_g, b in branches:
             if b:
                 s_g.trace.append('loop%s:iter' % key)
                 for s_b in bind_fn(s_g):
@@ -189,6 +206,9 @@ def run_cut_loop(ex, stmt, st, key, lc, guard_fn, bind_fn, advance_fn, label):
                         if oc in (Outcome.NEXT, Outcome.CONT):
                             # only writes on paths that return to the loop head need to be havoc'ed there
                             more |= _snapshot_writes(pre, s_e, ex) - hset
+                            t1 = s_e.ghost.get('__taint__', frozenset())
+                            if not t1 <= taint0:
+                                more.add(('taint', t1 - taint0))
                         if oc in (Outcome.NEXT, Outcome.CONT):
                             advance_fn(s_e)
                             for j, inv in enumerate(invs):
@@ -207,12 +227,25 @@ def run_cut_loop(ex, stmt, st, key, lc, guard_fn, bind_fn, advance_fn, label):
         # locations written by the body must all have been havoc'ed, else redo with a larger havoc set
         more = {m for m in more if not (m[0] == 'var' and m[1] in _targets(stmt))}
         more = {m for m in more if m not in hset}
+        lazy = {m for m in more if m[0] == 'list' and m[1] not in st.lists}
+        if lazy:
+            # a children list that was only materialised inside this round was modified: such lists do not exist in
+            # the loop-entry state; from now on lazily materialised children lists carry no facts (taint '#children')
+            more -= lazy
+            if '#children' not in st.ghost.get('__taint__', frozenset()):
+                more.add(('taint', frozenset({'#children'})))
         if not more:
             ex._entry_state = entry_saved
             return results
         del ex.goals[goals_mark:]
+        for m in list(more):
+            if m[0] == 'taint':
+                # token fields written in the body: from now on unknown for every element at the loop head
+                st = st.fork()
+                st.ghost['__taint__'] = st.ghost.get('__taint__', frozenset()) | m[1]
+                more.discard(m)
         hset |= more
-    raise OutsideSubset('loop havoc set did not stabilise')
+    raise OutsideSubset("loop havoc set did not stabilise: %r" % (sorted(more, key=str)[:6],))
 
 
 def _targets(stmt):
@@ -314,11 +347,10 @@ def exec_while(ex, stmt, st):
         raise OutsideSubset('while/else')
 
     def guard(s):
+        # the guard may fork (case splits on list positions) or raise (partial operations): every outcome is followed
+        pend_mark = len(getattr(ex, '_pending_raises', []))
         r = ex.eval(stmt.test, s)
-        if len(r) != 1:
-            raise OutsideSubset('forking while guard')
-        s1, v = r[0]
-        return ex.truth(v, s1)
+        return [(s1, ex.truth(v, s1)) for s1, v in r]
 
     def bind(s):
         return [s]
